@@ -143,6 +143,16 @@ def decide(idx, seed, tier, cls, given=None):
                     problems.append({"problem": "generator subprocess exited %d" % r.returncode, "stderr": r.stderr[-300:]})
                 writes = [os.path.join(sc_.dir, f) for f in sc_.listing()]
             else:
+                if idx % 3 == 0 and given is None or (given is not None and given.get("rerun")):
+                    # an earlier run whose parameters differ only beyond the whole percent shown in the name (or the same run
+                    # repeated) has already left a file of that name behind
+                    q = dict(p)
+                    for kk in ("p_robot", "p_light", "p_tile"):
+                        if 0.01 <= q[kk] <= 0.9:
+                            q[kk] = q[kk] + 0.004
+                    gc.call_main(rg, gc.gen_argv(q["seed"], q["width"], q["length"], q["p_robot"], q["p_light"], q["p_tile"], q["p_loose"], q["max_reward"], q["force_down"]))
+                    res["stats"]["reruns_over_existing_file"] = 1
+                    case["rerun"] = True
                 exc, log, writes = gc.call_main(rg, argv)
                 if exc is not None:
                     problems.append({"problem": "generator raised %s: %s" % (type(exc).__name__, str(exc)[:200])})
